@@ -19,7 +19,9 @@ CLAIMS = {
                 "error bound S q^M/(1-q^M), entire phi functions (limit values, integral representations, differentiable), and for "
                 "all fourteen stored coefficients |coef - dt*phi-combination(z)| <= |dt| c e^{max(0,z+R)} (r/R)^M/(1-(r/R)^M) for every "
                 "real z (zero, tiny and stiff alike), even M, r<R; with the code's defaults M=16, r=1 every coefficient is within "
-                "5e-8*|dt| of the exact Cox-Matthews value for every z<=0. Correspondence: stored arrays and step_fourier vs the "
+                "5e-8*|dt| of the exact Cox-Matthews value for every z<=0. For COMPLEX z=lambda dt (advection, dispersion, damped waves): within "
+                "1.7e-12*|dt| on the closed left half-plane and 8.3e-4*|dt| for Re z<=20, if and only if z is none of the sixteen points "
+                "-zeta_j (node on the removable singularity: closed form 0/0); real and purely imaginary symbols never are. Correspondence: stored arrays and step_fourier vs the "
                 "compiled model over a dense z cover. ORDER (Properties/C02_order.lean): on the linear test family N(u)=mu*u, for every "
                 "lambda, mu in C (lambda=0 and tiny lambda*dt included), one regenerated ETDRKp step is multiplication by an explicit "
                 "R_p(lambda dt, mu dt), |R_p - e^{(lambda+mu)t}| <= C_loc t^{p+1} and n steps with n dt <= T are within "
@@ -44,7 +46,7 @@ CLAIMS = {
                 "Burgers / KS equal their generic equivalents; and about the WIRING regenerated from every class's __init__ / "
                 "_build_nonlinear_fun (37 classes, harness/translate_wiring.py): the difficulty and normalized interfaces hand their "
                 "parent exactly the documented conversions and every option unchanged, and specific / general / difficulty steppers "
-                "instantiate the same documented nonlinear term with the user's flags. Correspondence: conversions; every member of the specific/generic/"
+                "instantiate the same documented nonlinear term with the user's flags. ASSEMBLED (Properties/C13_assembly.lean): for the convection, gradient-norm, general-nonlinear, polynomial and linear families the ETDRK-p step (p=0..4, whole spectra, regenerated coefficients/operators/wiring) of the physical stepper equals that of the normalized stepper on (alpha,beta) and of the difficulty stepper on (gamma,delta); two configurations with equal groups have equal steps (real domain extent needed for the nonlinear laws, counterexample otherwise). Correspondence: conversions; every member of the specific/generic/"
                 "normalized/difficulty families vs the one model evaluated on the documented equivalent, EVERY combination of the "
                 "boolean options (conservative, single_channel, mixing flags); the regenerated symbol of every stepper class vs the "
                 "array the class builds. Oracle: specific-vs-generic pairs of the overview.",
@@ -87,7 +89,7 @@ CLAIMS = {
                 "flags, general linear family, Wave) equal the documented operators, with a coverage theorem over all 26 classes "
                 "that define an operator and the 11 that inherit one; closed forms of the documented symbols; wave stepper per mode: "
                 "exact rotation, DC drift, ODE, group law; rfftn/irfftn round trip all D, N. the Wave stepper's constructor norm, transforms and step_fourier REGENERATED from "
-                "stepper/_wave.py equal the per-mode model. Correspondence: every linear class's "
+                "stepper/_wave.py equal the per-mode model. Wave stepper on WHOLE STATES: the regenerated fft/Wave_step_fourier/ifft pipeline maps every real band-limited pair (h,v) to the superposition of the analytic d'Alembert solutions (all D, N, real dt, L>0, c!=0), with group law and inverse. Correspondence: every linear class's "
                 "operator array vs polySymbol of the documented operator AND vs the regenerated symbol evaluated by the driver, "
                 "whole step vs the model, dt in {1e-3,1,1e3,-0.3}; Wave per mode.",
         "technique": "Lean 4 proof (symbol algebra, exact ODE solution per mode, DFT round trip) + model/implementation correspondence",
@@ -100,7 +102,7 @@ CLAIMS = {
                 "right-exclusive with spacing L/N, flat<->multi index bijection; DFT: irfftn(rfftn u)=u for every real u, all D>=1, "
                 "N>=1; single-mode read-off a cos(2 pi k x/L+phi) (1-D, incl. DC/Nyquist); Parseval in the half layout. "
                 "exponax.fft/ifft REGENERATED from _spectral.py (axis selection, inference of omitted "
-                "arguments) are the model transforms per channel. Correspondence: exhaustive exact comparison of wavenumbers, scalings, masks (every cutoff), slices for all N in "
+                "arguments) are the model transforms per channel. Composed extraction: the regenerated get_fourier_coefficients of a sampled mode a cos(k.x+phi) is a e^{i phi} 2^{n-1} at the stored index of k (n = non-zero components; exactly a e^{i phi} axis-aligned) and 0 elsewhere. Correspondence: exhaustive exact comparison of wavenumbers, scalings, masks (every cutoff), slices for all N in "
                 "range x D in 1..3; rfftn/irfftn (non-Hermitian input too), make_grid, wrap_bc. Oracle: every wavenumber vector of "
                 "the layout as a single mode; ij/xy consistency.",
         "technique": "Lean 4 proof (integer layout + DFT theory) + exhaustive exact correspondence",
@@ -112,7 +114,7 @@ CLAIMS = {
                 "convection term is divergence-free for every input, with and without Kolmogorov injection; every regenerated "
                 "ETDRK stage formula (orders 0-4) maps divergence-free spectra to divergence-free spectra for any nonlinear map with "
                 "divergence-free output, hence any rollout length. make_incompressible REGENERATED from _spectral.py is that "
-                "projection between the model transforms. Correspondence: Leray, make_incompressible, ProjectedConvection3d, "
+                "projection between the model transforms. Instantiated: every ETDRK order and rollout of the 3-D velocity stepper (N = the rotational term, with or without injection) preserves divergence-freeness. Correspondence: Leray, make_incompressible, ProjectedConvection3d, "
                 "NavierStokesVelocity, KolmogorovFlowVelocity vs the model.",
         "technique": "Lean 4 proof (per-mode linear algebra + induction over ETDRK stages / rollout) + correspondence",
         "design_ref": "DESIGN.md §5 C10",
@@ -126,7 +128,7 @@ CLAIMS = {
                 "(white noise, Nyquist content) for all D>=1, N>=1, dt>=0, Re L<=0, and neither does any state of any rollout; exact "
                 "energy budget (damping + projection loss); norm preserved iff E is Hermitian-consistent or the state has no content "
                 "on each self-conjugate mode (odd grids / Nyquist-free states), with a proved strict-loss example at the Nyquist mode; "
-                "wave energy per mode conserved. Correspondence: linear steppers on white noise with dt up to 1e6 vs the model.",
+                "wave energy per mode conserved. Wave energy sum v^2 + c^2 sum |grad h|^2 conserved by the whole step on every real Nyquist-free pair and on every real state of an odd grid (counterexample with Nyquist content); positive-definite diffusivity strictly damps every non-constant mode; advection/dispersion are isometries for every real state on odd grids. Correspondence: linear steppers on white noise with dt up to 1e6 vs the model.",
         "technique": "Lean 4 proof (norm of the propagator, symbol signs, Parseval) + correspondence",
         "design_ref": "DESIGN.md §5 C11",
     },
@@ -137,7 +139,7 @@ CLAIMS = {
                 "the model Spectrum.spectrum in every dimension: a cos(k.x+phi) shows |a| (amplitude) resp. a^2/4 (power) in the bin "
                 "of |k| and 0 elsewhere; 1-D full Parseval identity for every real state and both binnings; n-D: summed power + "
                 "power of the stored modes outside the Nyquist sphere = half the mean square. get_spectrum / get_fourier_coefficients REGENERATED from "
-                "_spectral.py (scan over bins as a fold) equal the model read-offs. Correspondence: the bin of every "
+                "_spectral.py (scan over bins as a fold) equal the model read-offs. average = sum / (number of stored modes of the bin) for every D, state and bin; every bin up to N/2 is populated. Correspondence: the bin of every "
                 "stored mode (exact) and full spectra (power/amplitude x sum/average x channels) vs the Spectrum model. Oracle: "
                 "amplitude read-off for every wavenumber vector, Parseval with the Nyquist-sphere truncation, average = sum / count.",
         "technique": "Lean 4 proof (integer bin arithmetic + n-D DFT read-off through the spectrum model) + exact per-mode correspondence",
@@ -168,7 +170,7 @@ CLAIMS = {
                 "Poisson: per mode zero mean mode / operator*solution = -rhs / guard only at the mean mode, and in physical space "
                 "the solver returns for every Nyquist-free right-hand side the field with modes divided by s^2|k|^2, which the model "
                 "Laplacian maps back to -f; transform round trip for all D, N. derivative and the Poisson solver "
-                "(inverse operator with zero-mode guard, step) REGENERATED from _spectral.py / _poisson.py equal the model routines. Correspondence: build_laplace_operator, derivative "
+                "(inverse operator with zero-mode guard, step) REGENERATED from _spectral.py / _poisson.py equal the model routines.  Correspondence: build_laplace_operator, derivative "
                 "(orders 1..6, C>=1), Poisson (orders 2, 4) vs the model on arbitrary states. Oracle: analytic derivatives of "
                 "Nyquist-free trigonometric polynomials, Poisson residual.",
         "technique": "Lean 4 proof (symbol algebra per mode + n-D DFT read-off of the model routines) + model/implementation correspondence",
@@ -179,7 +181,7 @@ CLAIMS = {
                 "ETDRK order updates a -> e^z a + dt phi1(z) f and from rest a_n = f (e^{n z}-1)/sigma for every n, dt (laminar "
                 "solution); steady amplitude is a fixed point; at rest the 2-D vorticity model term returns exactly rfftn of "
                 "-m(2pi/L)gamma cos(m 2pi x_1/L) and the 3-D velocity term rfftn of gamma sin(m 2pi x_1/L) in channel 0 and zero in "
-                "channels 1, 2 (every N with 2m<N, any convection scale / dealiasing). Correspondence: injected spectra, rest-start "
+                "channels 1, 2 (every N with 2m<N, any convection scale / dealiasing). WHOLE spectrum: the 2-D vorticity convection vanishes on every shear spectrum, so from rest every order moves only the forced mode (exact coefficients: f(e^{n sigma dt}-1)/sigma there, 0 elsewhere; stored coefficients: all four orders the same trajectory); 3-D for the two Kolmogorov modes (_partial). Correspondence: injected spectra, rest-start "
                 "rollouts for L in {2pi,1,5}, ForcedStepper over several base steppers. Oracle: laminar closed form of the "
                 "documented forcing with varied convection scale and sign. (Repaired forcing defects: known_findings.json, fixed.)",
         "technique": "Lean 4 proof (recurrence/closed form + per-mode injection) + model/implementation correspondence",
@@ -194,7 +196,7 @@ CLAIMS = {
                 "wavenumbers to any finer or coarser grid samples its own interpolant there (exact up- and down-sampling); "
                 "up-sampling from an odd grid is exact for every state; 1-D: there-and-back is the identity, integer refinement keeps "
                 "the samples; block-copy index theorems; same resolution is the identity. map_between_resolutions and FourierInterpolator REGENERATED from _interpolation.py "
-                "equal the model routines. Correspondence: exact index maps for all "
+                "equal the model routines. There-and-back is the identity in EVERY dimension for real states band-limited below both Nyquist wavenumbers (every real state from an odd grid upwards). Correspondence: exact index maps for all "
                 "(N_old, N_new) in range x D, map_between_resolutions and FourierInterpolator numerically. Oracle: Nyquist-free "
                 "trigonometric polynomials at arbitrary query points, round trips, mean.",
         "technique": "Lean 4 proof (DFT theory of the resampling routine + slice/index arithmetic) + exact index-map and numerical correspondence",
@@ -205,7 +207,7 @@ CLAIMS = {
                 "(a^D)^q, Parseval (Fourier aggregate with 1/reconstruction-scaling weights = spatial aggregate for p=2, all D, "
                 "N), channel additivity, band additivity over adjacent bands and the full band, zero iff identical / positive "
                 "otherwise, symmetry, homogeneity of degree p*q, scale-freeness and symmetry of the normalized / symmetric "
-                "combinations, correlation in [-1,1] and +-1 for proportional fields. Correspondence: every exported metric "
+                "combinations, correlation in [-1,1] and +-1 for proportional fields. Sobolev split of the regenerated H1_* functions (plain + derivative-order-1 metric; the latter is the sum over axes of the gradient components' metric); p=2 metrics of a band-limited pair are unchanged by resampling to another resolution. Correspondence: every exported metric "
                 "function (spatial, Fourier with bands and derivatives, correlation) vs the model. Oracle: the same laws "
                 "measured on the implementation, resolution independence, Sobolev = value + gradient term.",
         "technique": "Lean 4 proof (real analysis of the quadratures + DFT Parseval) + model/implementation correspondence",
@@ -274,7 +276,7 @@ CLAIMS = {
                 "no-work identities on dealiased states through the model pipeline: Burgers <u, N(u)> = 0 (1-D), 2-D vorticity form "
                 "enstrophy <w, N(w)> = 0 and energy <psi, N(w)> = 0, 3-D rotational form <u, P(u x w)> = 0 for every velocity that "
                 "is divergence-free on the retained modes (in particular after Leray projection), with the underlying triad "
-                "identities for any truncated spectrum. Correspondence: every listed stepper vs the model on white-noise and "
+                "identities for any truncated spectrum. Equilibria: transport terms vanish on constants, reaction terms map constants to constants, L(0)u+N(u)=0 at the documented equilibria of FisherKPP/AllenCahn/SwiftHohenberg/GrayScott through the regenerated wiring; with the STORED coefficients an equilibrium is exactly fixed iff the scalar defect e^z-1-z*mean(phi1) vanishes at the mean-mode symbol (always for transport equations), within |lambda dt|*5e-8 otherwise (the naive exact statement is proved false). Correspondence: every listed stepper vs the model on white-noise and "
                 "smooth states. Oracle: mean drift, constant equilibria of the documented equations, no-work identities on "
                 "band-limited states.",
         "technique": "Lean 4 proof (mean-mode algebra of translated stage formulas + model terms) + correspondence",
@@ -288,7 +290,7 @@ CLAIMS = {
                 "times the nonlinear evaluations. IEEE overflow/underflow/NaN semantics and JAX dtype promotion cannot be "
                 "expressed in the model: the check observes them in two subprocesses (default float32 and x64): finiteness of "
                 "coefficients for |z| up to 1e15, output and leaf dtypes of every public stepper, single-vs-double agreement "
-                "within a multiple of float32 epsilon, zero state. Correspondence: binary64 model vs implementation coefficients "
+                "within a multiple of float32 epsilon, zero state. COMPLEX symbols: all fourteen coefficients bounded by |dt|(w_i+1.7e-12) for Re(lambda dt)<=0 and a bounded step for every order, exactly off the sixteen contour nodes -zeta_j (where the closed form is 0/0; real and imaginary symbols never meet them); the zero state stays zero under every unforced term and order. Correspondence: binary64 model vs implementation coefficients "
                 "at stiff z.",
         "technique": "Lean 4 proof (uniform bounds on translated contour coefficients) + float32/x64 session observation; IEEE semantics external",
         "design_ref": "DESIGN.md §5 C19",
